@@ -159,13 +159,14 @@ Definition af_add (A B : absfmt) : result absfmt :=
         (a_nan A || a_nan B || (a_pinf A && a_ninf B) || (a_ninf A && a_pinf B))
         (a_nz A && a_nz B))).
 
+(* `if isinstance(b, float) and math.isnan(b): b = d` *)
+Definition nan_to (d b : bnd) : bnd := match b with BNaN => d | _ => b end.
+
 (* __sub__ *)
 Definition af_sub (A B : absfmt) : result absfmt :=
   let exp := ext_min (a_exp A) (a_exp B) in
-  let pos0 := bsub (a_pos A) (a_neg B) in
-  let neg0 := bsub (a_neg A) (a_pos B) in
-  let pos := match pos0 with BNaN => BInf false | b => b end in
-  let neg := match neg0 with BNaN => BInf true | b => b end in
+  let pos := nan_to (BInf false) (bsub (a_pos A) (a_neg B)) in
+  let neg := nan_to (BInf true) (bsub (a_neg A) (a_pos B)) in
   bind (sum_prec exp pos neg) (fun prec =>
   Ok (AF prec exp pos neg
         (a_pinf A || a_ninf B) (a_ninf A || a_pinf B)
